@@ -30,6 +30,7 @@ import (
 	"github.com/snapcore/snapd/overlord/configstate/config"
 	"github.com/snapcore/snapd/overlord/hookstate"
 	"github.com/snapcore/snapd/overlord/snapstate"
+	"github.com/snapcore/snapd/overlord/snapstate/snapstatetest"
 	"github.com/snapcore/snapd/overlord/state"
 	"github.com/snapcore/snapd/release"
 	"github.com/snapcore/snapd/snap"
@@ -44,7 +45,8 @@ type verifC10Suite struct {
 
 var _ = Suite(&verifC10Suite{})
 
-const c10Snap = "some-snap"
+// the snap a history plays with: an app (`some-snap`) or, for the boot in-use tie of C12, the boot base `core` of the UC16 test model
+var c10Snap = "some-snap"
 
 // ---------------------------------------------------------------------------------------------- inputs
 
@@ -70,12 +72,18 @@ type c10Op struct {
 	Fail int `json:"fail,omitempty"`
 	// Sweep: run the operation with a failure at EVERY position 1 .. tasks+1 in turn, then once without failure.
 	Sweep bool `json:"sweep,omitempty"`
-	// Inside: make the backend call with this op name fail (first occurrence in the change); "" = none
+	// Inside: make the first backend call with this op name during the change fail once: `remove-snap-files` (discard-snap
+	// answers with state.Retry and is re-run), `unlink-snap`, `remove-snap-data` (the task fails, the change is undone),
+	// `link-snap` (the LinkSnap call of the target revision fails; link-snap cleans up and fails). "" = none
 	Inside string `json:"inside,omitempty"`
+	// InUse: revisions the boot environment uses (snap_core, snap_try_core) while the operation runs; core histories only
+	InUse []int `json:"inuse,omitempty"`
 }
 
 type c10In struct {
 	Core bool    `json:"core,omitempty"` // run as an Ubuntu Core device (release.OnClassic = false): default retain 3
+	Snap string  `json:"snap,omitempty"` // "" = some-snap (app); "core" = the boot base of the UC16 model (needs Core and Seed)
+	Seed int     `json:"seed,omitempty"` // > 0: the history starts from kept revisions 1..Seed, current = Seed, active (state written directly)
 	Ops  []c10Op `json:"ops"`
 }
 
@@ -137,6 +145,8 @@ type c10Step struct {
 	NPos    int      `json:"npos"`            // number of failure positions of the change (tasks + 1)
 	Status  string   `json:"status,omitempty"`
 	Copies  int      `json:"copies"` // copy-data backend operations during the change
+	InUse   []int    `json:"inuse,omitempty"`
+	Retried int      `json:"retried,omitempty"` // tasks that answered state.Retry and were run again
 	After   c10State `json:"after"`
 }
 
@@ -275,6 +285,7 @@ type c10Run struct {
 	maxRev int    // highest revision ever asked for
 	rset   string // refresh.retain as set by the history
 	last   c10State
+	seed   c10State
 }
 
 func (r *c10Run) kept(hint int) int {
@@ -283,6 +294,13 @@ func (r *c10Run) kept(hint int) int {
 		return 99
 	}
 	return seq[(hint-1)%len(seq)]
+}
+
+func c10SnapID() string {
+	if c10Snap == "core" {
+		return "core-snap-id" // the id the suite's fake store knows for the core snap
+	}
+	return c10Snap + "-id"
 }
 
 // emulate the data directories the real backend manages: undoUnlinkSnap looks at them
@@ -313,6 +331,26 @@ func (s *verifC10Suite) settleLong(c *C) {
 		s.logTasks(c)
 		c.Fatalf("settle: %v", err)
 	}
+}
+
+// settle, running again the tasks that answered state.Retry (discard-snap after a failed RemoveSnapFiles asks to be retried
+// in 3 minutes): their wait is cleared, as if the time had passed. Returns how many retries were released.
+func (s *verifC10Suite) settleRetrying(c *C, chg *state.Change) int {
+	released := 0
+	for i := 0; i < 400 && !chg.IsReady(); i++ {
+		s.state.Unlock()
+		s.se.Ensure()
+		s.se.Wait()
+		s.state.Lock()
+		for _, t := range chg.Tasks() {
+			if t.Status() == state.DoingStatus && !t.AtTime().IsZero() {
+				t.At(time.Time{})
+				released++
+			}
+		}
+	}
+	s.settleLong(c) // cleanup handlers, pending ensures
+	return released
 }
 
 // one operation = one change (or a refusal). State lock held by the caller.
@@ -348,6 +386,19 @@ func (s *verifC10Suite) runOp(c *C, op c10Op, run *c10Run, fail int) c10Step {
 			ropts.Revision = snap.R(rev)
 			ts, err = snapstate.Install(context.Background(), st, c10Snap, ropts, s.user.ID, flags)
 		case "refresh":
+			if c10Snap == "core" {
+				// what boot.InUse (snapstate's inUseFor) reads on the UC16 model: the revisions named by snap_core / snap_try_core
+				use := op.InUse
+				if len(use) == 0 {
+					use = []int{run.last.Current}
+				}
+				vars := map[string]string{"snap_mode": "", "snap_core": "core_" + strconv.Itoa(use[0]) + ".snap", "snap_try_core": ""}
+				if len(use) > 1 {
+					vars["snap_try_core"] = "core_" + strconv.Itoa(use[1]) + ".snap"
+				}
+				s.bl.SetBootVars(vars)
+				step.InUse = use
+			}
 			seq := run.last.Seq
 			if op.Rev <= 0 || len(seq) <= 1 {
 				rev = run.maxRev + 1
@@ -359,7 +410,7 @@ func (s *verifC10Suite) runOp(c *C, op c10Op, run *c10Run, fail int) c10Step {
 				rev = seq[i]
 			}
 			ropts.Revision = snap.R(rev)
-			s.fakeStore.refreshRevnos = map[string]snap.Revision{c10Snap + "-id": snap.R(rev)}
+			s.fakeStore.refreshRevnos = map[string]snap.Revision{c10SnapID(): snap.R(rev)}
 			ts, err = snapstate.Update(st, c10Snap, ropts, s.user.ID, flags)
 		case "refresh-path":
 			// refresh from a local file (sideload: `snap install ./some-snap_N.snap` with store metadata for revision N):
@@ -373,7 +424,7 @@ func (s *verifC10Suite) runOp(c *C, op c10Op, run *c10Run, fail int) c10Step {
 			if e := os.WriteFile(filepath.Join(dir, "meta", "snap.yaml"), []byte("name: "+c10Snap+"\nversion: 1.0\nepoch: 1*\n"), 0644); e != nil {
 				c.Fatal(e)
 			}
-			si := &snap.SideInfo{RealName: c10Snap, SnapID: c10Snap + "-id", Revision: snap.R(rev)}
+			si := &snap.SideInfo{RealName: c10Snap, SnapID: c10SnapID(), Revision: snap.R(rev)}
 			ts, _, err = snapstate.InstallPath(st, si, dir, "", ropts.Channel, flags, nil)
 		case "revert":
 			rev = 0
@@ -492,9 +543,39 @@ func (s *verifC10Suite) runOp(c *C, op c10Op, run *c10Run, fail int) c10Step {
 			chg.AddTask(terr)
 		}
 		step.K = k
-		s.fakeBackend.maybeInjectErr = func(fop *fakeOp) error { c10DataDirs(fop); return nil }
-		s.settleLong(c)
+		fired := false
+		s.fakeBackend.maybeInjectErr = func(fop *fakeOp) error {
+			if op.Inside != "" && op.Inside != "link-snap" && !fired && fop.op == op.Inside {
+				if n, _ := c10RevOfPath(fop.path); n == c10Snap {
+					fired = true
+					fop.op += ".failed" // the call had no effect: not part of the world
+					return errors.New("injected transient backend failure")
+				}
+			}
+			c10DataDirs(fop)
+			return nil
+		}
+		if op.Inside == "link-snap" && step.Sup != nil {
+			s.fakeBackend.linkSnapFailTrigger = snap.MinimalPlaceInfo(c10Snap, snap.R(step.Sup.Rev)).MountDir()
+		}
+		if op.Inside == "remove-snap-files" {
+			step.Retried = s.settleRetrying(c, chg)
+		} else {
+			s.settleLong(c)
+		}
 		s.fakeBackend.maybeInjectErr = nil
+		s.fakeBackend.linkSnapFailTrigger = ""
+		if op.Inside != "" && k == 0 && chg.Status() == state.ErrorStatus {
+			// a task failed inside: report its position (the model's handlers have no recorded effect before their first
+			// backend call, so this is a failure at that position)
+			for i, t := range tasks {
+				if t.Status() == state.ErrorStatus {
+					k = i + 1
+					break
+				}
+			}
+			step.K = k
+		}
 		step.Status = chg.Status().String()
 		if !chg.IsReady() {
 			c.Fatalf("change not ready: %v", chg.Status())
@@ -546,10 +627,14 @@ func c10Broken(x c10Step) bool {
 	return true
 }
 
-func (s *verifC10Suite) play(c *C, in c10In) []c10Step {
+func (s *verifC10Suite) play(c *C, in c10In) ([]c10Step, c10State) {
 	// gocheck has set the suite up once for the test method: every history gets a fresh overlord/state/backend
 	s.TearDownTest(c)
 	s.SetUpTest(c)
+	c10Snap = "some-snap"
+	if in.Snap != "" {
+		c10Snap = in.Snap
+	}
 	s.AddCleanup(release.MockOnClassic(!in.Core))
 	run := &c10Run{w: &c10World{mounted: map[int]bool{}}}
 	run.last = c10State{Seq: []int{}, NotBlocked: []int{}, Block: []int{}, RevCfg: [][2]int{}, Mounted: []int{}}
@@ -574,6 +659,26 @@ func (s *verifC10Suite) play(c *C, in c10In) []c10Step {
 
 	s.state.Lock()
 	defer s.state.Unlock()
+	if in.Seed > 0 {
+		// the history starts from an installed snap: the record is written as snapd would have left it, the world matches it
+		var sis []*snap.SideInfo
+		for r := 1; r <= in.Seed; r++ {
+			sis = append(sis, &snap.SideInfo{RealName: c10Snap, SnapID: c10SnapID(), Revision: snap.R(r)})
+			run.w.mounted[r] = true
+			run.last.Seq = append(run.last.Seq, r)
+			run.last.Mounted = append(run.last.Mounted, r)
+		}
+		typ := "app"
+		if c10Snap == "core" {
+			typ = "os"
+		}
+		snapstate.Set(s.state, c10Snap, &snapstate.SnapState{Active: true, Sequence: snapstatetest.NewSequenceFromSnapSideInfos(sis),
+			Current: snap.R(in.Seed), SnapType: typ, TrackingChannel: "latest/stable"})
+		run.w.link = in.Seed
+		run.maxRev = in.Seed
+		run.last = s.observe(c, run.w)
+	}
+	run.seed = run.last
 	var steps []c10Step
 	for _, op := range in.Ops {
 		if op.Sweep {
@@ -581,7 +686,7 @@ func (s *verifC10Suite) play(c *C, in c10In) []c10Step {
 				st := s.runOp(c, op, run, k)
 				if c10Broken(st) {
 					steps = append(steps, st)
-					return steps
+					return steps, run.seed
 				}
 				// every executed step is recorded (with its effective position), also the one that ends the sweep
 				steps = append(steps, st)
@@ -600,7 +705,7 @@ func (s *verifC10Suite) play(c *C, in c10In) []c10Step {
 			break
 		}
 	}
-	return steps
+	return steps, run.seed
 }
 
 // ---------------------------------------------------------------------------------------------- Coq rendering
@@ -674,7 +779,11 @@ func c10StepCoq(x c10Step, classic bool) string {
 	if x.Op.Kind == "setcfg" {
 		rev = x.Op.Rev
 	}
-	op := "(mkOp " + strings.Join([]string{c10OpCoq[x.Op.Kind], vh.CoqN(uint64(rev)), vh.CoqBool(x.Op.Kind == "revert"),
+	okind := c10OpCoq[x.Op.Kind]
+	if x.Op.Kind == "refresh-path" && len(x.Before.Seq) == 0 {
+		okind = "OInstall" // InstallPath on a snap that is not installed: an install from a local file
+	}
+	op := "(mkOp " + strings.Join([]string{okind, vh.CoqN(uint64(rev)), vh.CoqBool(x.Op.Kind == "revert"),
 		vh.CoqN(c10ChanID(sup.Chan)), vh.CoqBool(sup.DevMode), vh.CoqBool(sup.JailMode), vh.CoqBool(sup.Classic),
 		vh.CoqBool(sup.TryMode), vh.CoqBool(sup.IgnoreVal), vh.CoqN(c10CohortID(sup.Cohort)), vh.CoqBool(sup.NotBlocked),
 		vh.CoqN(uint64(x.HookCfg)), vh.CoqN(uint64(x.Now)), vh.CoqBool(x.Op.Kind != "refresh-path")}, " ") + ")"
@@ -696,7 +805,7 @@ func c10StepCoq(x c10Step, classic bool) string {
 		chain[i] = vh.CoqTuple(ck, vh.CoqN(uint64(x.KRevs[i])))
 	}
 	return "(mkStep " + strings.Join([]string{op, vh.CoqNat(x.K), rset, vh.CoqBool(classic), vh.CoqZ(int64(x.Retain)),
-		vh.CoqBool(x.Err), vh.CoqList(chain), c10NList(x.After.Block), vh.CoqN(uint64(x.Copies)), c10StateCoq(x.After)}, " ") + ")"
+		vh.CoqBool(x.Err), vh.CoqList(chain), c10NList(x.After.Block), vh.CoqN(uint64(x.Copies)), c10NList(x.InUse), c10StateCoq(x.After)}, " ") + ")"
 }
 
 // ---------------------------------------------------------------------------------------------- generation
@@ -753,6 +862,8 @@ func c10RandOp(r *vh.Rand, installed bool) c10Op {
 	}
 	if r.Chance(1, 2) {
 		op.Fail = r.Range(1, 60)
+	} else if r.Chance(1, 6) {
+		op.Inside = r.Pick([]string{"remove-snap-files", "remove-snap-files", "unlink-snap", "link-snap", "remove-snap-data"})
 	}
 	return op
 }
@@ -807,6 +918,23 @@ func c10Sweeps(tier string) []c10In {
 			{Kind: "remove-rev", Rev: 3}, {Kind: "remove-rev", Rev: 2}, {Kind: "disable"}, {Kind: "remove-rev", Rev: 1},
 			inst, newr, {Kind: "revert"}}},
 		{Ops: []c10Op{inst, {Kind: "setcfg", Rev: 6}, newr, {Kind: "revert"}, {Kind: "disable"}, {Kind: "remove"}}},
+		// C11: handlers that fail midway. A transient RemoveSnapFiles failure makes discard-snap answer state.Retry: it is run
+		// again (remove --revision with exactly two kept revisions, garbage collection, remove of the whole snap)
+		{Ops: []c10Op{inst, newr, {Kind: "remove-rev", Rev: 1, Inside: "remove-snap-files"}, newr,
+			{Kind: "refresh", Inside: "remove-snap-files"}, {Kind: "revert"}, {Kind: "remove", Inside: "remove-snap-files"}}},
+		{Ops: []c10Op{inst, newr, {Kind: "disable"}, {Kind: "remove-rev", Rev: 2, Inside: "remove-snap-files"}, {Kind: "enable"}}},
+		// ... and backend calls of link-snap / unlink-current-snap / unlink-snap / clear-snap that fail: the task fails, the change is undone
+		{Ops: []c10Op{inst, newr, {Kind: "refresh", Inside: "link-snap"}, {Kind: "refresh", Inside: "unlink-snap"},
+			{Kind: "disable", Inside: "unlink-snap"}, {Kind: "remove", Inside: "remove-snap-data"}, {Kind: "remove", Inside: "unlink-snap"},
+			{Kind: "install", Rev: 9, Inside: "link-snap"}, {Kind: "revert", Inside: "link-snap"}}},
+		// C12: the boot base `core` of the UC16 model: revisions named by snap_core / snap_try_core are in use and are never
+		// garbage-collected (boot.InUse through snapstate's inUseFor); retain 3 (default) and lowered to 2
+		// (refresh.retain is configuration OF the core snap: setting it would give the snap under test a configuration entry
+		// the projection does not describe, so these histories run with the default 3 of a core device)
+		{Core: true, Snap: "core", Seed: 4, Ops: []c10Op{{Kind: "refresh", InUse: []int{2, 1}}, {Kind: "refresh", InUse: []int{5}},
+			{Kind: "refresh", InUse: []int{4, 6}}, {Kind: "refresh", InUse: []int{4}}, {Kind: "refresh", Rev: 1, InUse: []int{6, 8}}}},
+		{Core: true, Snap: "core", Seed: 5, Ops: []c10Op{{Kind: "refresh", InUse: []int{1, 3}},
+			{Kind: "refresh", InUse: []int{3}, Fail: 19}, {Kind: "refresh", InUse: []int{6, 3}}, {Kind: "refresh", InUse: []int{2}}}},
 		// C11: failures at every task of remove / disable / enable changes (what the completed tasks' undo leaves)
 		{Core: true, Ops: []c10Op{inst, {Kind: "setcfg", Rev: 3}, newr, newr, {Kind: "revert"}, sw(c10Op{Kind: "remove"})}},
 		{Ops: []c10Op{inst, newr, sw(c10Op{Kind: "disable"}), sw(c10Op{Kind: "remove-rev", Rev: 1}), sw(c10Op{Kind: "enable"}),
@@ -901,11 +1029,33 @@ func c10Gen(r *vh.Rand, tier string, n int) []c10In {
 		}
 		ins = append(ins, in)
 	}
+	// the boot base: refreshes with boot in-use revisions chosen at random among the kept ones
+	for i := 0; i < (n+3)/4; i++ {
+		seed := r.Range(3, 6)
+		in := c10In{Core: true, Snap: "core", Seed: seed}
+		next := seed
+		for j, m := 0, r.Range(3, 6); j < m; j++ {
+			op := c10Op{Kind: "refresh", InUse: []int{r.Range(1, next)}}
+			if r.Chance(1, 2) {
+				op.InUse = append(op.InUse, r.Range(1, next))
+			}
+			if r.Chance(1, 5) {
+				op.Rev = r.Range(1, 5) // to a kept revision
+			} else {
+				next++
+			}
+			if r.Chance(1, 5) {
+				op.Fail = r.Range(1, 40)
+			}
+			in.Ops = append(in.Ops, op)
+		}
+		ins = append(ins, in)
+	}
 	return ins
 }
 
 func (s *verifC10Suite) exec(c *C, in c10In) vh.Out {
-	steps := s.play(c, in)
+	steps, seed := s.play(c, in)
 	coq := make([]string, len(steps))
 	tagset := map[string]bool{}
 	nontrivial := false
@@ -940,7 +1090,7 @@ func (s *verifC10Suite) exec(c *C, in c10In) vh.Out {
 		tags = append(tags, t)
 	}
 	sort.Strings(tags)
-	return vh.Out{Observed: steps, Coq: "(mkCase " + vh.CoqList(coq) + ")", NonTrivial: nontrivial, Tags: tags}
+	return vh.Out{Observed: steps, Coq: "(mkCase " + c10StateCoq(seed) + " " + vh.CoqList(coq) + ")", NonTrivial: nontrivial, Tags: tags}
 }
 
 func (s *verifC10Suite) TestVerifC10Driver(c *C) {
@@ -952,7 +1102,8 @@ func (s *verifC10Suite) TestVerifC10Driver(c *C) {
 		if err := json.Unmarshal([]byte(p), &in); err != nil {
 			c.Fatal(err)
 		}
-		for _, st := range s.play(c, in) {
+		steps, _ := s.play(c, in)
+		for _, st := range steps {
 			b, _ := json.Marshal(st)
 			fmt.Println(string(b))
 		}
